@@ -28,6 +28,7 @@ type Interp struct {
 	mergeMu               sync.Mutex
 	mergeCache            map[*ssa.Function]*mergeInfo
 	NoMerge               bool
+	NoSlice               bool
 }
 
 type deferred struct {
@@ -513,7 +514,7 @@ func (p *Path) panicMessage(fr *frame, v Value) string {
 		if it.T != nil {
 			// error or Stringer
 			for _, mname := range []string{"Error", "String"} {
-				if m := p.in.Prog.LookupMethod(it.T, nil, mname); m != nil {
+				if m := p.method(it.T, mname); m != nil {
 					func() {
 						defer func() { recover() }()
 						if s, ok := p.callSSA(fr, token.NoPos, m, []Value{it.V}, nil).(Str); ok {
